@@ -17,7 +17,7 @@ var tableIDs = []string{"t1", "t2"}
 func tname(parent, id string) string { return parent + "/tables/" + id }
 
 var families = []string{"cf", "cf2", "x"}
-var keyUniverse = [][]byte{[]byte("a"), []byte("a\x00"), []byte("a\x00\x00"), []byte("ab"), []byte("b"), {0}, {0xff}, []byte("row-7"), {0xff, 0xff}, []byte("b\xff")}
+var keyUniverse = [][]byte{[]byte("a"), []byte("a\x00"), []byte("a\x00\x00"), []byte("ab"), []byte("b"), {0}, {0xff}, []byte("row-7"), {0xff, 0xff}, []byte("b\xff"), []byte("a\xff"), []byte("a\xffz"), []byte("c"), []byte("b\x00")}
 var qualifiers = [][]byte{{}, []byte("q"), []byte("q2"), {0, 0xff}, []byte("zz")}
 var tsPool = []int64{0, 1000, 2000, 3000, 1000000, 9223372036854775000, -1, -1, 1, 999, -1000, -2, 9223372036854775807, 1500}
 var clocks = []int64{1000000000, 1234567, 5000, 4611686018427387904, 0, 2500, 1790000000000000}
@@ -395,7 +395,7 @@ func (g *progGen) opAdmin() {
 		case 1:
 		default:
 			r.HasPfx = true
-			r.Prefix = [][]byte{[]byte("a"), []byte("a\x00"), {0xff}, []byte("b"), {}, []byte("ro"), []byte("ab"), {0xff, 0xff}, []byte("zzz")}[g.rng.Intn(9)]
+			r.Prefix = [][]byte{[]byte("a"), []byte("a\x00"), {0xff}, []byte("b"), {}, []byte("ro"), []byte("ab"), {0xff, 0xff}, []byte("zzz"), []byte("a\xff"), []byte("b\xff"), []byte("a\xff\xff")}[g.rng.Intn(12)]
 		}
 		g.add(r)
 	default:
@@ -503,5 +503,12 @@ func genPrograms(prop, out, tier string, rng *rand.Rand) {
 		}
 	}
 	RunTasks(sink, tasks, progNontrivial)
-	sink.Close(fmt.Sprintf("random request programs (focus %s) of about %d requests over %d row keys (byte-prefixes of each other, 0x00/0xff), 3 families + 1 unknown, %d qualifiers incl. empty, boundary timestamps, %d clock values incl. non-millisecond and huge; MutateRow/MutateRows/CheckAndMutateRow/ReadModifyWriteRow/ReadRows with RowSets, filters to depth 3, limits/admin requests/forced GC passes, a full-table read after most writes; every program runs on the btree, in-memory leveldb and on-disk leveldb engines; distinct = distinct canonical (program, observation) text (identical observations on several engines count once); non-trivial = at least one successful write and one non-empty read", prop, length, len(keyUniverse), len(qualifiers), len(clocks)), false)
+	exhaustive := false
+	if prop == "C03" || prop == "C17" {
+		// the complete RowSet space over the adversarial key universe (variant enum)
+		genEnum(sink, tier)
+		exhaustive = true
+	}
+	sink.perFile = 40
+	sink.Close(fmt.Sprintf("(C03/C17 additionally: the COMPLETE space of RowSets with at most two ranges plus at most one key, bounds from the 7-key adversarial universe, each bound unset/closed/open, limits {0,2} (thorough {0,1,2,3,7,8}), on a table holding all 7 keys, on all three engines: 50851 range sets x 8 keys x limits per engine, reported as blocks of 1600 range sets) random request programs (focus %s) of about %d requests over %d row keys (byte-prefixes of each other, 0x00/0xff), 3 families + 1 unknown, %d qualifiers incl. empty, boundary timestamps, %d clock values incl. non-millisecond and huge; MutateRow/MutateRows/CheckAndMutateRow/ReadModifyWriteRow/ReadRows with RowSets, filters to depth 3, limits/admin requests/forced GC passes, a full-table read after most writes; every program runs on the btree, in-memory leveldb and on-disk leveldb engines; distinct = distinct canonical (program, observation) text (identical observations on several engines count once); non-trivial = at least one successful write and one non-empty read", prop, length, len(keyUniverse), len(qualifiers), len(clocks)), exhaustive)
 }
